@@ -74,6 +74,11 @@ _TD = {True: "T", False: "F", None: "N"}
 _TD_INV = {"T": True, "F": False, "N": None}
 
 
+def _td(x):
+  """Type-strict: 1 is not True."""
+  return "T" if x is True else "F" if x is False else "N" if x is None else "?"
+
+
 def _conv(prop, v, L, zero):
   """Common structure of to_abstract (L = alen) and observed (L = olen)."""
   sp = _sp()
@@ -99,7 +104,7 @@ def _conv(prop, v, L, zero):
   if isinstance(v, sp.TextEmphasisType):
     return {"k": "te", "style": v.style.value, "col": tok_str(v.color), "pos": v.position.value}
   if isinstance(v, sp.TextDecorationType):
-    return {"k": "td", "u": _TD[v.underline], "l": _TD[v.line_through], "o": _TD[v.overline]}
+    return {"k": "td", "u": _td(v.underline), "l": _td(v.line_through), "o": _td(v.overline)}
   return tok(v)
 
 
